@@ -302,6 +302,9 @@ func gen(r *vhlib.Rand, i int, o vhlib.Opts) any {
 	if i < len(resArgs) {
 		return input{Kind: "prep", First: 1700000000, Last: 1700000000 + int64(i)*40000, ResArg: resArgs[i]}
 	}
+	// vhlib seeds are consecutive states of one splitmix64 sequence (seed s+1 = seed s advanced by one
+	// step), so without this re-keying seed 2 would replay the cases of seed 1 shifted by one index
+	r = vhlib.NewRand(r.U64() ^ (o.Seed+1)*0xD6E8FEB86659FD93 ^ uint64(i)<<40)
 	maxRows := 10
 	if o.Search {
 		maxRows = 16
@@ -476,6 +479,7 @@ func run(raw json.RawMessage, o vhlib.Opts) (*vhlib.Case, error) {
 
 	case "prep":
 		a := query.NewArgs("time,sip", "eth0")
+		a.Format = "json"
 		a.First, a.Last = strconv.FormatInt(in.First, 10), strconv.FormatInt(in.Last, 10)
 		a.TimeResolution = in.ResArg
 		var stmt *query.Statement
